@@ -25,7 +25,9 @@ def main():
     if eng == "kernel":
         from vf import swzkernel as K
         cfg = r["cfg"]
-        if len(cfg) == 4:
+        if len(cfg) == 4 and isinstance(cfg[2], list):
+            v, m, n, dw = K.swizzle_forces_target(cfg[0], cfg[1], 0, 0, ranges=cfg[2], pick=cfg[3])
+        elif len(cfg) == 4:
             v, m, n, dw = K.swizzle_forces_target(*cfg)
         else:
             v, m = K.dist_target_equals(*cfg)
